@@ -265,6 +265,10 @@ def make_cells(tier):
     def long_seq(draw):
         u = draw(inputs(strata=("tiny", "switch", "mid", "mid")))
         u["dt"] = draw(st.sampled_from([1 / 400.0, 0.005, 0.01, 0.02, 1 / 3200.0]))
+        rate = draw(st.sampled_from([0.0, 0.2, 1.0, 5.0, 20.0]))  # body rate in rad/s (the drawn direction is kept)
+        w = np.array(u["w"], float)
+        nw = float(np.linalg.norm(w))
+        u["w"] = list(w / nw * rate) if nw > 0 else [rate, 0.0, 0.0]
         return {"x0": draw(state()), "u": u, "n": draw(st.sampled_from([40, 100, 300]))}
 
     def check_long(case):
